@@ -52,6 +52,32 @@
 (* (SamplesShape).  The geometry maps themselves remove the batch axis of  *)
 (* a one-column input (Squeezed): a conversion that hands the whole array  *)
 (* to the map (deviation "batchfast") loses the sample axis at Ns = 1.     *)
+(*                                                                         *)
+(* CONSTRUCTOR OPTIONS are a dimension of the configuration space that TLC *)
+(* enumerates (constants StepOpts, KLDecay2, KLNorms, Forms): every        *)
+(* documented option value of every geometry is a configuration of mode    *)
+(* "maps" and therefore goes through EVERY invariant and EVERY replayed    *)
+(* facet (single vectors, batches of 1, 2, 3 pairwise different columns,   *)
+(* sample sets, round trips):                                              *)
+(*   step   fun2par_projection 'mean' | 'max' | 'min' in any letter case   *)
+(*          (field proj; LowerOf names the documented projection)          *)
+(*   kl     decay_rate d2/2 (d2 = 5: the documented default 2.5, the       *)
+(*          argument is omitted) x normalizer tau: mode i is scaled by     *)
+(*          1/((i+1)^decay tau).  Half-integer decays: the specification   *)
+(*          holds functions in the sine basis whose mode i is divided by   *)
+(*          sqrt(i+1), so that all coefficients stay rational.             *)
+(*   form   the form of the constructor argument on which the maps do not  *)
+(*          depend: grid of Continuous1D / default 1D as int | (n,) | list *)
+(*          | array, of KLExpansion as a list, of Continuous2D as ints |    *)
+(*          arrays | mixed, Discrete(variables) as int | list of names,    *)
+(*          Image2D without its order argument (= 'C'), default 2D with    *)
+(*          visual_only (class DefaultVisual), MappedGeometry without imap  *)
+(*          (par2fun only: HasInv), and the bare _WrappedGeometry (map     *)
+(*          "wrap": all maps are those of the wrapped geometry).           *)
+(* fun2par of a MATRIX of stacked functions (columns GB, pairwise          *)
+(* different, extrema of a step in different columns) is the column-wise   *)
+(* projection (ColumnwiseF2P); deviation "batchreduce": the block of node  *)
+(* values of a step is reduced over all columns at once.                   *)
 (***************************************************************************)
 EXTENDS Mat, FiniteSets, Json
 
@@ -63,8 +89,13 @@ CONSTANTS MaxN1,       \* ident: n in 1..MaxN1
           MaxOps,      \* conv: length of the trail
           MaxSeq,      \* seq: number of actions of a behaviour
           Dev,         \* "none" | "openfirst" | "batchmix" | "vectorsetspar" | "stalekl" | "ravelC"
-                       \* | "imapafter" | "stalestep" | "stalefunvec" | "stalewrap" | "batchfast"
-          Emit
+                       \* | "imapafter" | "stalestep" | "stalefunvec" | "stalewrap" | "batchfast" | "batchreduce"
+          Emit,
+          \* constructor options (every value is crossed with every invariant / facet of mode "maps")
+          StepOpts,    \* step: fun2par_projection strings handed to the constructor (any letter case, see LowerOf)
+          KLDecay2,    \* kl: twice the decay rate (4 = decay 2; 5 = the documented default 2.5)
+          KLNorms,     \* kl: normalizer (integers)
+          Forms        \* forms of the constructor argument: subset of AllForms
 
 VARIABLES c,        \* configuration record (uniform shape, see Cfg)
           mode,     \* "maps" | "conv"
@@ -81,7 +112,7 @@ vars == <<c, mode, rep, origin, par, vec, val, trail, indices, c0, cache, shp>>
 
 Cfg(kind, cls, n, r, cc, m, n2, s, x0, len, proj) ==
     [kind |-> kind, cls |-> cls, n |-> n, r |-> r, cc |-> cc, m |-> m, n2 |-> n2, s |-> s, x0 |-> x0, len |-> len, proj |-> proj,
-     maps |-> <<>>]
+     maps |-> <<>>, d2 |-> 4, tau |-> 12, form |-> ""]
 WithMaps(k, ms) == [k EXCEPT !.maps = ms]
 Inner(k)        == [k EXCEPT !.maps = <<>>]
 IsMapped(k)     == k.maps # <<>>
@@ -90,15 +121,31 @@ IsMapped(k)     == k.maps # <<>>
 X0Seq == << <<0, 1>>, <<1, 3>>, <<-1, 1>>, <<1, 10>>, <<2, 1>> >>
 LSeq  == << <<1, 1>>, <<1, 3>>, <<3, 10>>, <<2, 1>>, <<3, 1>>, <<7, 1>> >>
 
-ImageCls == {"Image2D_C", "Image2D_F", "Visual_C", "Visual_F", "Default2D", "Continuous2D"}
+\* DefaultVisual: _DefaultGeometry2D(im_shape, visual_only=True)
+ImageCls == {"Image2D_C", "Image2D_F", "Visual_C", "Visual_F", "Default2D", "DefaultVisual", "Continuous2D"}
 OrderOf(cls)  == IF cls \in {"Image2D_F", "Visual_F"} THEN "F" ELSE "C"
-VisualOf(cls) == cls \in {"Visual_C", "Visual_F"}
+VisualOf(cls) == cls \in {"Visual_C", "Visual_F", "DefaultVisual"}
+
+\* ---- constructor options -----------------------------------------------------------------------
+\* the documented projection an option string names (the letter case is ignored)
+LowerOf(o) == CASE o \in {"mean", "MEAN", "Mean", "mEaN"} -> "mean"
+                [] o \in {"max", "MAX", "Max", "mAx"}     -> "max"
+                [] o \in {"min", "MIN", "Min", "MiN"}     -> "min"
+AllForms == {"tuple", "list", "array", "mixed", "names", "noorder", "noimap", "wrap"}
+FormsOf(k) == CASE k.cls \in {"Continuous1D", "Default1D"} -> {"tuple", "list", "array"}
+                [] k.cls = "KLExpansion"                   -> {"list"}
+                [] k.cls = "Discrete"                      -> {"names"}
+                [] k.cls = "Continuous2D"                  -> {"array", "mixed"}
+                [] k.cls \in {"Image2D_C", "Visual_C"}     -> {"noorder"}
+                [] OTHER                                   -> {}
+ASSUME Forms \subseteq AllForms
 
 IdentConfigs  == {Cfg("ident", cls, n, 0, 0, 0, 0, 0, Zero, Zero, "") :
                     cls \in {"Continuous1D", "Default1D", "Discrete"}, n \in 1..MaxN1}
 ImageConfigs  == {Cfg("image", cls, 0, r, cc, 0, 0, 0, Zero, Zero, "") : cls \in ImageCls, r \in 1..MaxR, cc \in 1..MaxR}
 \* mapped geometries: every kind of inner geometry x every stack of maps.  <<m1, m2>> is a MappedGeometry of a MappedGeometry
 MapStacks == {<<"affine">>, <<"cube">>, <<"exp">>, <<"affine", "cube">>, <<"cube", "affine">>}
+             \cup (IF "wrap" \in Forms THEN {<<"wrap">>} ELSE {})          \* _WrappedGeometry(inner): no map at all
 StepCfg(n, s, a, b) == Cfg("step", "StepExpansion", n, 0, 0, 0, 0, s, X0Seq[a], LSeq[b], "")
 KLCfg(n, m)         == Cfg("kl", "KLExpansion", n, 0, 0, m, 0, 0, Zero, Zero, "")
 MappedInner ==
@@ -108,6 +155,22 @@ MappedInner ==
     \cup {KLCfg(n, m) : n \in 3..MaxKL, m \in {0, 1, 2}}                       \* all modes and truncated
     \cup {StepCfg(5, 2, 1, 1), StepCfg(7, 3, 2, 2), StepCfg(4, 4, 3, 1)}
 MappedConfigs == {WithMaps(k, ms) : k \in MappedInner, ms \in MapStacks}
+\* option configurations: a few sizes of every geometry x EVERY value of its constructor options
+StepOptConfigs == {[StepCfg(q[1], q[2], q[3], q[4]) EXCEPT !.proj = o] :
+                      q \in {<<5, 2, 1, 1>>, <<7, 3, 2, 2>>, <<4, 4, 3, 1>>, <<9, 3, 1, 3>>, <<6, 1, 1, 1>>}, o \in StepOpts}
+KLOptConfigs   == {[KLCfg(q[1], q[2]) EXCEPT !.d2 = d, !.tau = t] : q \in {<<4, 0>>, <<4, 2>>, <<3, 1>>}, d \in KLDecay2, t \in KLNorms}
+FormBase == {Cfg("ident", cls, n, 0, 0, 0, 0, 0, Zero, Zero, "") : cls \in {"Continuous1D", "Default1D", "Discrete"}, n \in {1, 3}}
+            \cup {Cfg("image", cls, 0, q[1], q[2], 0, 0, 0, Zero, Zero, "") :
+                     cls \in {"Continuous2D", "Image2D_C", "Visual_C"}, q \in {<<2, 3>>, <<1, 3>>, <<3, 1>>}}
+            \cup {KLCfg(4, 0), KLCfg(4, 2)}
+FormConfigs == UNION {{[k EXCEPT !.form = f] : f \in (FormsOf(k) \cap Forms)} : k \in FormBase}
+               \* MappedGeometry(geometry, map) without imap: par2fun only
+               \cup (IF "noimap" \in Forms
+                     THEN {[WithMaps(k, <<"affine">>) EXCEPT !.form = "noimap"] :
+                              k \in {Cfg("ident", "Continuous1D", 3, 0, 0, 0, 0, 0, Zero, Zero, ""),
+                                     Cfg("image", "Image2D_F", 0, 2, 3, 0, 0, 0, Zero, Zero, ""), StepCfg(5, 2, 1, 1)}}
+                     ELSE {})
+OptConfigs == StepOptConfigs \cup KLOptConfigs \cup FormConfigs
 \* m = 0 stands for num_modes = None
 KLConfigs     == {Cfg("kl", "KLExpansion", n, 0, 0, m, n2, 0, Zero, Zero, "") :
                     n \in 1..MaxKL, m \in 0..(MaxKL + 1), n2 \in 0..MaxKL}
@@ -115,7 +178,7 @@ StepConfigs   == {Cfg("step", "StepExpansion", n, 0, 0, 0, 0, s, X0Seq[a], LSeq[
                     n \in 2..MaxStepN, s \in 1..MaxStepN, a \in 1..NX0, b \in 1..NL}
 ValidCfg(k) == /\ (k.kind = "step" => k.s <= k.n)              \* documented: at least as many grid points as steps
                /\ (k.kind = "kl" => k.m <= k.n + 1 /\ (k.n2 > 0 => k.n2 # k.n))
-MapConfigs  == {k \in IdentConfigs \cup ImageConfigs \cup MappedConfigs \cup KLConfigs \cup StepConfigs : ValidCfg(k)}
+MapConfigs  == {k \in IdentConfigs \cup ImageConfigs \cup MappedConfigs \cup KLConfigs \cup StepConfigs \cup OptConfigs : ValidCfg(k)}
 
 \* configurations on which the conversion automaton runs (small; step grids away from float coincidences)
 MappedConv ==
@@ -131,7 +194,11 @@ ConvConfigs ==
     \cup {k \in ImageConfigs : k.r <= 3 /\ k.cc <= 3 /\ (k.r + k.cc) \in {3, 4, 5}}
     \cup {(IF k.kind = "step" THEN [k EXCEPT !.proj = "mean"] ELSE k) : k \in MappedConv}
     \cup {k \in KLConfigs : k.n \in {3, 4} /\ k.m \in {0, 2} /\ k.n2 = 0}
-    \cup {Cfg("step", "StepExpansion", n, 0, 0, 0, 0, s, Zero, One, p) : n \in {4, 5}, s \in {1, 2, 4}, p \in {"mean", "max"}}
+    \cup {Cfg("step", "StepExpansion", n, 0, 0, 0, 0, s, Zero, One, p) : n \in {4, 5}, s \in {1, 2, 4}, p \in {"mean", "max", "min"}}
+    \* sample sets / arrays on option configurations (a letter-case variant, a non-default decay and normalizer, argument forms)
+    \cup {k \in StepOptConfigs : k.n = 7 /\ k.proj \notin {"mean", "max", "min"}}
+    \cup {k \in KLOptConfigs : k.n = 4 /\ k.m = 2 /\ k.d2 # 4 /\ k.tau # 12}
+    \cup {k \in FormConfigs : k.form \in {"list", "names", "mixed"} /\ k.kind \in {"ident", "image"} /\ (k.n = 3 \/ k.r = 2)}
 
 \* ---- shapes ---------------------------------------------------------------------------------
 EffN(k)   == IF k.kind = "kl" /\ k.n2 > 0 THEN k.n2 ELSE k.n               \* current grid size
@@ -147,9 +214,10 @@ FunShape(k) == IF Is2D(k) THEN <<k.r, k.cc>>
                       [] k.kind = "kl" -> <<EffN(k)>>
                       [] OTHER -> <<ParDim(k)>>                        \* visual-only image
 FunDim(k) == IF Is2D(k) THEN k.r * k.cc ELSE FunShape(k)[1]
-HasVec(k) == ~(k.kind = "image" /\ k.cls = "Continuous2D")
+\* no vector form: Continuous2D; the bare wrapper around a geometry with 2-D functions (base-class fun2vec)
+HasVec(k) == ~(k.kind = "image" /\ k.cls = "Continuous2D") /\ ~(k.maps = <<"wrap">> /\ Is2D(k))
 FunvecDim(k) == IF Is2D(k) THEN ParDim(k) ELSE FunDim(k)
-HasInv(k) == TRUE                                                   \* every modelled geometry offers fun2par
+HasInv(k) == k.form # "noimap"                                      \* fun2par: not for a MappedGeometry without imap
 Order(k)  == OrderOf(k.cls)
 
 \* ---- pixel <-> parameter index (1-based in the module, emitted 0-based) ---------------------------
@@ -192,7 +260,9 @@ Project(op, s) == IF op = "mean" THEN RDiv(RFold("sum", s), R(Len(s))) ELSE RFol
 SetToSeq(S) == F([q \in 1..Cardinality(S) |-> CHOOSE x \in S : Cardinality({y \in S : y < x}) = q - 1])
 
 \* ---- KL coefficients (decay 2, normalizer 12): 1 / ((i+1)^2 12), i 0-based ---------------------------
-KLCoef(i) == Q(1, 12 * i * i)                                          \* i 1-based here
+\* decay d2/2, normalizer tau: 1 / ((i+1)^decay tau).  For an odd d2 the remaining factor (i+1)^(-1/2) is part of the
+\* basis the specification holds KL functions in (emitted as halfpow), so the coefficient is rational
+KLCoef(k, i) == RInv(RMul(R(k.tau), RPow(R(i), k.d2 \div 2)))           \* i 1-based here
 \* number of coefficients the cache holds: intended = the current mode count; deviation: the one of the first grid
 KLCached(k) == IF Dev = "stalekl" /\ k.n2 > 0 THEN (IF k.m = 0 THEN k.n ELSE IMin(k.m, k.n)) ELSE ParDim(k)
 
@@ -208,13 +278,15 @@ CbrtFloor(a, lo, hi) == IF lo = hi THEN lo
 ICbrt(a) == LET r == CbrtFloor(a, 0, 1290) IN IF r * r * r = a THEN r ELSE -1          \* a >= 0;  1290^3 < 2^31
 RCbrt(y) == LET rn == ICbrt(Abs(y[1]))  rd == ICbrt(y[2])                              \* y is normalised: n/d is a cube iff n and d are
             IN IF rn < 0 \/ rd < 0 THEN Irr ELSE <<(IF y[1] < 0 THEN -rn ELSE rn), rd>>
-ExactMap(mp) == mp \in {"affine", "cube"}
+ExactMap(mp) == mp \in {"affine", "cube", "wrap"}
 MapLeaf(mp, x)  == IF IsIrr(x) THEN Irr
                    ELSE CASE mp = "affine" -> RAdd(RMul(R(2), x), One)
                           [] mp = "cube"   -> RMul(x, RMul(x, x))
+                          [] mp = "wrap"   -> x
 IMapLeaf(mp, y) == IF IsIrr(y) THEN Irr
                    ELSE CASE mp = "affine" -> RDiv(RSub(y, One), R(2))
                           [] mp = "cube"   -> RCbrt(y)
+                          [] mp = "wrap"   -> y
 \* the stack <<m1, .., mj>>: forward mj(..m1(x)); inverse im1(..imj(y))
 RECURSIVE LeafAll(_, _)
 LeafAll(ms, x)  == IF ms = <<>> THEN x ELSE LeafAll(Tail(ms), MapLeaf(Head(ms), x))
@@ -248,15 +320,15 @@ Ravel(k, f)   == F([q \in 1..(k.r * k.cc) |-> f[RRow(k, q)][RCol(k, q)]])
 P2FBase(k, p) ==
     CASE k.kind = "ident" -> p
       [] k.kind = "image" -> IF Is2D(k) THEN Reshape(k, p) ELSE p
-      [] k.kind = "kl" -> F([i \in 1..EffN(k) |-> IF i <= ParDim(k) /\ i <= KLCached(k) THEN RMul(KLCoef(i), p[i]) ELSE Zero])
+      [] k.kind = "kl" -> F([i \in 1..EffN(k) |-> IF i <= ParDim(k) /\ i <= KLCached(k) THEN RMul(KLCoef(k, i), p[i]) ELSE Zero])
       \* zeros, then every step writes its value on its nodes
       [] k.kind = "step" -> F([j \in 1..k.n |-> IF Covered(k, j - 1) THEN p[StepOf(k, j - 1) + 1] ELSE Zero])
 F2PBase(k, f) ==
     CASE k.kind = "ident" -> f
       [] k.kind = "image" -> IF Is2D(k) THEN Ravel(k, f) ELSE f
-      [] k.kind = "kl" -> F([i \in 1..ParDim(k) |-> IF i <= KLCached(k) THEN RDiv(f[i], KLCoef(i)) ELSE Zero])
+      [] k.kind = "kl" -> F([i \in 1..ParDim(k) |-> IF i <= KLCached(k) THEN RDiv(f[i], KLCoef(k, i)) ELSE Zero])
       [] k.kind = "step" -> F([i \in 1..k.s |-> LET nodes == SetToSeq(indices[i])
-                                                IN Project(k.proj, [q \in 1..Len(nodes) |-> f[nodes[q] + 1]])])
+                                                IN Project(LowerOf(k.proj), [q \in 1..Len(nodes) |-> f[nodes[q] + 1]])])
 \* MappedGeometry, structurally:  par2fun = Map . inner.par2fun,   fun2par = inner.fun2par . IMap
 InnerPar2Fun(k, p) == P2FBase(k, p)
 InnerFun2Par(k, f) == F2PBase(k, f)
@@ -281,6 +353,13 @@ G0(k, w)    == IF Is2D(k) THEN F([i \in 1..k.r |-> [j \in 1..k.cc |-> R(((i - 1)
                ELSE F([j \in 1..FunDim(k) |-> R(j * j + w)])
 \* mapped geometries: its image under the maps (in the range of the maps, not of par2fun; G0 is its pre-image)
 F0(k, w)    == MapF(k, G0(k, w))
+\* column w of a MATRIX of stacked functions: odd integers in -23..21 (no zero entry), pairwise different columns, and the
+\* column that holds the largest / smallest value changes from node to node - so the extrema of the steps of a step
+\* expansion lie in different columns (both checked on the emitted columns by the harness: vacuity guards)
+GBVal(q, w) == R(2 * ((q * q * (w + 1) + 3 * q + 5 * w) % 23) - 23)
+GB(k, w)    == IF Is2D(k) THEN F([i \in 1..k.r |-> [j \in 1..k.cc |-> GBVal((i - 1) * k.cc + j, w)]])
+               ELSE F([j \in 1..FunDim(k) |-> GBVal(j, w)])
+FB(k, w)    == MapF(k, GB(k, w))
 
 \* ---- numpy's reshape-based batch handling of Image2D / Continuous2D, index by index --------------------
 \* a (par_dim, W) matrix is flattened in `order` and refilled into (r, cc, W) in `order`
@@ -326,9 +405,11 @@ RoundTrip(k) ==
 
 \* for geometries whose inverse is a projection: once more back and forth changes nothing
 StepProj(k, pr) == [k EXCEPT !.proj = pr]
+\* the projections a step configuration is checked with: the one its constructor option names, else all three
+ProjsOf(k) == IF k.proj = "" THEN {"mean", "min", "max"} ELSE {k.proj}
 Idempotent(k) ==
     /\ (k.kind = "kl" => LET g == P2F(k, F2P(k, F0(k, 1))) IN P2F(k, F2P(k, g)) = g)
-    /\ (k.kind = "step" => \A pr \in {"mean", "min", "max"} :
+    /\ (k.kind = "step" => \A pr \in ProjsOf(k) :
             LET kk == StepProj(k, pr)  g == P2F(kk, F2P(kk, F0(kk, 1))) IN P2F(kk, F2P(kk, g)) = g)
     /\ (k.kind \in {"ident", "image"} => P2F(k, F2P(k, F0(k, 1))) = F0(k, 1))     \* exact inverses (mapped or not)
 
@@ -344,10 +425,33 @@ Columnwise(k) ==
                /\ (k.cls = "Continuous2D" =>
                       LET B == BatchRavel(k, T, W) IN \A w \in 1..W : \A a \in 1..ParDim(k) : B[a][w] = F2P(k, P2F(k, P0(k, w)))[a])
 
+\* fun2par of a matrix of stacked functions FB[w] (w = 1..W), written like the implementation's loop over the steps: the
+\* block of node values of step i (nodes x columns) is reduced along the nodes, one result per column.
+\* Deviation "batchreduce": the block is reduced over all its entries at once (every column gets the same number).
+StepBlock(FBm, nodes, W) == [t \in 1..(Len(nodes) * W) |-> FBm[((t - 1) % W) + 1][nodes[((t - 1) \div W) + 1] + 1]]
+F2PBatch(k, FBm, W) ==
+    IF k.kind = "step"
+    THEN F([w \in 1..W |-> [i \in 1..k.s |->
+            LET nodes == SetToSeq(indices[i])
+            IN IF Dev = "batchreduce" THEN Project(LowerOf(k.proj), StepBlock(FBm, nodes, W))
+               ELSE Project(LowerOf(k.proj), [q \in 1..Len(nodes) |-> FBm[w][nodes[q] + 1]])]])
+    ELSE F([w \in 1..W |-> F2PBase(k, FBm[w])])
+\* column-wise: every column of the batch result is fun2par of that column - for functions outside the range of par2fun
+\* (the documented projection of each) and for par2fun of a parameter batch (round trip of the batch)
+ColumnwiseF2P(k) ==
+    (k.kind \in {"step", "kl"} /\ ~IsMapped(k)) =>
+        \A pr \in (IF k.kind = "step" THEN ProjsOf(k) ELSE {""}) : \A W \in Widths :
+            LET kk  == IF k.kind = "step" THEN StepProj(k, pr) ELSE k
+                FBm == F([w \in 1..W |-> GB(kk, w)])
+                PBm == F([w \in 1..W |-> P2F(kk, P0(kk, w))])
+                A   == F2PBatch(kk, FBm, W)
+                B   == F2PBatch(kk, PBm, W)
+            IN \A w \in 1..W : A[w] = F2P(kk, GB(kk, w)) /\ B[w] = P0(kk, w)
+
 ShapeOf(k, v, twoD) == IF twoD THEN <<Len(v), Len(v[1])>> ELSE <<Len(v)>>
 Shapes(k) ==
     /\ ShapeOf(k, Bare(k, P2F(k, P0(k, 1))), Is2D(k)) = FunShape(k)
-    /\ Len(F2P(k, F0(k, 1))) = ParDim(k)
+    /\ (HasInv(k) => Len(F2P(k, F0(k, 1))) = ParDim(k))
     /\ (HasVec(k) => Len(Bare(k, F2V(k, F0(k, 1)))) = FunvecDim(k))
     /\ (HasVec(k) => ShapeOf(k, Bare(k, V2F(k, F2V(k, F0(k, 1)))), Is2D(k)) = FunShape(k))
 
@@ -364,6 +468,8 @@ MappedProjection(k) ==
 
 IndexTable(k) == IF Is2D(k) THEN F([i \in 1..k.r |-> [j \in 1..k.cc |-> PIdx(k, i, j) - 1]]) ELSE <<>>
 
+AllProj(k) == k.kind = "step" /\ k.proj = ""
+FB2P(k)    == F([w \in 1..MaxW |-> F2P(k, FB(k, w))])
 MapsRec(k) ==
     [kind |-> "maps", c |-> k,
      par_shape |-> <<ParDim(k)>>, fun_shape |-> FunShape(k), has_vec |-> HasVec(k),
@@ -371,7 +477,10 @@ MapsRec(k) ==
      index |-> IndexTable(k),
      stepof |-> IF k.kind = "step" THEN StepTable(k) ELSE <<>>,
      boundary |-> IF k.kind = "step" THEN F([j \in 1..k.n |-> OnBoundary(k, j - 1)]) ELSE <<>>,
-     coefs |-> IF k.kind = "kl" THEN F([i \in 1..ParDim(k) |-> KLCoef(i)]) ELSE <<>>,
+     coefs |-> IF k.kind = "kl" THEN F([i \in 1..ParDim(k) |-> KLCoef(k, i)]) ELSE <<>>,
+     \* kl: 1 = the basis functions are the sine modes divided by sqrt(i+1) (half-integer decay rate)
+     halfpow |-> IF k.kind = "kl" THEN k.d2 % 2 ELSE 0,
+     has_inv |-> HasInv(k),
      \* g0: a lattice function; the function handed to fun2par is f0 = maps(g0) (= g0 without maps).  f0 / p2f are the
      \* spec's exact values where it holds them (p2f: par2fun of the basis vectors and of the ramp P0)
      tagged |-> Tagged(k),
@@ -387,28 +496,44 @@ MapsRec(k) ==
                     [ns |-> W, par |-> <<ParDim(k), W>>, fun |-> FunShape(k) \o <<W>>,
                      vec |-> IF HasVec(k) THEN <<FunvecDim(k), W>> ELSE <<>>, fun_is_vec |-> ~Is2D(k),
                      map_fun |-> MapFunShape(k, W), map_par |-> MapParShape(k, W)]]),
-     f2p |-> IF k.kind = "step" THEN <<>> ELSE F2P(k, F0(k, 1)),
-     f2p_mean |-> IF k.kind = "step" THEN F2P(StepProj(k, "mean"), F0(k, 1)) ELSE <<>>,
-     f2p_min  |-> IF k.kind = "step" THEN F2P(StepProj(k, "min"), F0(k, 1)) ELSE <<>>,
-     f2p_max  |-> IF k.kind = "step" THEN F2P(StepProj(k, "max"), F0(k, 1)) ELSE <<>>]
+     \* a step configuration without a projection option carries all three projections, else the one of its option
+     f2p |-> IF AllProj(k) \/ ~HasInv(k) THEN <<>> ELSE F2P(k, F0(k, 1)),
+     f2p_mean |-> IF AllProj(k) /\ HasInv(k) THEN F2P(StepProj(k, "mean"), F0(k, 1)) ELSE <<>>,
+     f2p_min  |-> IF AllProj(k) /\ HasInv(k) THEN F2P(StepProj(k, "min"), F0(k, 1)) ELSE <<>>,
+     f2p_max  |-> IF AllProj(k) /\ HasInv(k) THEN F2P(StepProj(k, "max"), F0(k, 1)) ELSE <<>>,
+     \* the matrix of stacked functions: its columns (mapped: their pre-images under the maps) and fun2par of each column
+     fb |-> F([w \in 1..MaxW |-> GB(k, w)]),
+     fb2p |-> IF AllProj(k) \/ ~HasInv(k) THEN <<>> ELSE FB2P(k),
+     fb2p_mean |-> IF AllProj(k) /\ HasInv(k) THEN FB2P(StepProj(k, "mean")) ELSE <<>>,
+     fb2p_min  |-> IF AllProj(k) /\ HasInv(k) THEN FB2P(StepProj(k, "min")) ELSE <<>>,
+     fb2p_max  |-> IF AllProj(k) /\ HasInv(k) THEN FB2P(StepProj(k, "max")) ELSE <<>>]
 
+\* a MappedGeometry without imap: only the forward maps (par2fun, vector form) and the shapes
+ForwardOnly(k) ==
+    /\ ShapeOf(k, Bare(k, P2F(k, P0(k, 1))), Is2D(k)) = FunShape(k)
+    /\ (HasVec(k) => V2F(k, F2V(k, P2F(k, P0(k, 2)))) = P2F(k, P0(k, 2)))
+    /\ \A x \in FlatLeaves(k, Bare(k, P2F(k, P0(k, 2)))) : ~IsIrr(x)
 Maps ==
     mode = "maps" =>
         /\ Partition(c)
-        /\ (c.kind = "step" \/ (Bijection(c) /\ RoundTrip(c) /\ Columnwise(c) /\ Shapes(c)))
-        /\ (c.kind = "step" => \A pr \in {"mean", "min", "max"} : RoundTrip(StepProj(c, pr)) /\ Shapes(StepProj(c, pr)))
-        /\ Idempotent(c)
-        /\ (c.kind = "step" => \A pr \in {"mean", "min", "max"} : MappedProjection(StepProj(c, pr)))
-        /\ (c.kind # "step" => MappedProjection(c))
+        /\ (~HasInv(c) => Bijection(c) /\ Columnwise(c) /\ ForwardOnly(c))
+        /\ (HasInv(c) =>
+            /\ (c.kind = "step" \/ (Bijection(c) /\ RoundTrip(c) /\ Columnwise(c) /\ Shapes(c)))
+            /\ (c.kind = "step" => \A pr \in ProjsOf(c) : RoundTrip(StepProj(c, pr)) /\ Shapes(StepProj(c, pr)))
+            /\ Idempotent(c)
+            /\ ColumnwiseF2P(c)
+            /\ (c.kind = "step" => \A pr \in ProjsOf(c) : MappedProjection(StepProj(c, pr)))
+            /\ (c.kind # "step" => MappedProjection(c)))
         /\ (Emit => PrintT("@@CASE " \o ToJson(MapsRec(c)) \o " @@END"))
 
 \* the same properties one by one (used by the deviation configurations to name what breaks)
 PartitionInv  == mode = "maps" => Partition(c)
-RoundTripInv  == mode = "maps" => IF c.kind = "step" THEN \A pr \in {"mean", "min", "max"} : RoundTrip(StepProj(c, pr))
-                                  ELSE RoundTrip(c)
+RoundTripInv  == mode = "maps" /\ HasInv(c) => IF c.kind = "step" THEN \A pr \in ProjsOf(c) : RoundTrip(StepProj(c, pr))
+                                                ELSE RoundTrip(c)
 ColumnwiseInv == mode = "maps" => Columnwise(c)
-MappedRoundTripInv  == mode = "maps" /\ IsMapped(c) /\ c.kind # "step" /\ c.maps = <<"cube">> => RoundTrip(c)
-MappedProjectionInv == mode = "maps" /\ IsMapped(c) /\ c.kind = "step" /\ c.maps = <<"cube">> => MappedProjection(StepProj(c, "mean"))
+ColumnwiseF2PInv == mode = "maps" /\ HasInv(c) => ColumnwiseF2P(c)
+MappedRoundTripInv  == mode = "maps" /\ IsMapped(c) /\ HasInv(c) /\ c.kind # "step" /\ c.maps = <<"cube">> => RoundTrip(c)
+MappedProjectionInv == mode = "maps" /\ IsMapped(c) /\ HasInv(c) /\ c.kind = "step" /\ c.maps = <<"cube">> => MappedProjection(StepProj(c, "mean"))
 
 \* ---- the conversion automaton (mode "conv") ---------------------------------------------------------------------
 Fun1D(k) == ~Is2D(k)
